@@ -281,8 +281,12 @@ func runC12(args []string) error {
 					if kc, ok := known[key]; ok && kc == class {
 						region = c12Region(key)
 					}
-					sm.RefMismatches = append(sm.RefMismatches, refMismatch{ID: cid, Region: region, Input: map[string]any{"key": key, "line": m.Line, "source": m.Src},
-						Impl: res[i], Ref: "go/types: " + m.RefErr})
+					in := map[string]any{"key": key, "line": m.Line}
+					if region == "" {
+						// not a known escape: the whole mutated source is the replay
+						in["source"] = m.Src
+					}
+					sm.RefMismatches = append(sm.RefMismatches, refMismatch{ID: cid, Region: region, Input: in, Impl: res[i], Ref: "go/types: " + m.RefErr})
 				}
 			}
 		}
